@@ -1513,8 +1513,10 @@ class PrepareAst:
                         {},
                     )
 
-                    call_expr.add_bound_statement(value_expr)
-                    call_expr.add_bound_statement(slice_expr)
+                    # the statements that compute the subscripted value and the index come
+                    # first: the element access (assignment of the run-time index to its
+                    # temporary) reads their results
+                    call_expr._bound_statements[0:0] = [value_expr, slice_expr]
 
                     return call_expr
 
